@@ -87,6 +87,8 @@ class Ctx:
         """Run TLC; on unexpected failure raise Infra (a model-only result is never a verdict)."""
         kw.setdefault("workers", int(os.environ.get("VERIF_WORKERS", "8")))
         kw.setdefault("heap", os.environ.get("VERIF_TLC_HEAP", "6g"))
+        if self.tier == "thorough" and count and "simulate" not in kw:
+            kw.setdefault("coverage", True)     # vacuity guard: actions never taken are listed in the evidence
         r = tla.run_tlc(self.specdir(), module, cfg, **kw)
         self.log("tlc %s/%s: rc=%s generated=%d distinct=%d depth=%d %.1fs%s" % (
             module, cfg, r.rc, r.generated, r.distinct, r.depth, r.wall,
@@ -103,8 +105,13 @@ class Ctx:
         if count:
             self.states += r.distinct
             self.transitions += r.generated
-            self.model_runs.append({"module": module, "cfg": cfg, "distinct": r.distinct,
-                                    "generated": r.generated, "depth": r.depth, "wall_s": round(r.wall, 1)})
+            mr = {"module": module, "cfg": cfg, "distinct": r.distinct,
+                  "generated": r.generated, "depth": r.depth, "wall_s": round(r.wall, 1)}
+            if kw.get("coverage"):
+                mr["actions_never_taken"] = sorted(set(r.coverage_zero))
+                if r.coverage_zero:
+                    self.log("vacuity: actions never taken in %s/%s: %s" % (module, cfg, sorted(set(r.coverage_zero))))
+            self.model_runs.append(mr)
         return r
 
     # ------------------------------------------------------------- Go driver
